@@ -30,6 +30,10 @@ var _ telemetry.ProgramReport // the contracts below name the type
 //@ ghost private bool
 //@ ghost contributed bool
 //@ ghost nprog int
+//@ ghost spanName string
+//@ ghost spanOK bool
+//@ ghost spanExpiry time
+//@ ghost collected string
 
 // An uploader's configuration and logger, and the maps of a report entry, are
 // set when the object is built and never replaced.
@@ -59,7 +63,7 @@ func specUploader(u *uploader) bool {
 
 //@ contract Run
 //@   recovers-first
-//@   modifies heap, $fsops, $lockHeld, $markerAbsent, $reportExists, $contributed, $minsize, $nprog
+//@   modifies heap, $fsops, $lockHeld, $markerAbsent, $reportExists, $contributed, $minsize, $nprog, $spanName, $spanOK, $spanExpiry, $collected
 
 //@ contract newUploader
 //@   ensures result1 == nil ==> uploaderOK(result0) && fresh(result0)
@@ -85,7 +89,7 @@ func specUploader(u *uploader) bool {
 //@   ensures uploaderOK(u)
 //@   ensures $mode == "off" ==> $fsops == old($fsops)
 //@   loop 1: invariant uploaderOK(u) && (len(ready) > 0 ==> $mode == "on") && ($mode == "off" ==> $fsops == old($fsops))
-//@   modifies u.cache.m, entries(u.cache.m), maps(string, int64), $fsops, $reportExists, $lockHeld, $markerAbsent, $contributed, $minsize, $nprog
+//@   modifies u.cache.m, entries(u.cache.m), maps(string, int64), $fsops, $reportExists, $lockHeld, $markerAbsent, $contributed, $minsize, $nprog, $spanName, $spanOK, $spanExpiry, $collected
 
 // findWork only reads: nothing is created, changed or removed (it may create
 // the upload directory itself). A report name is put on the ready list only in
@@ -99,10 +103,21 @@ func specUploader(u *uploader) bool {
 //@   loop 1: invariant u.cache.m == old(u.cache.m) || fresh(u.cache.m)
 //@   loop 1: invariant uploaderOK(u) && $fsops == old($fsops) && (len(ans.readyfiles) > 0 ==> $mode == "on") && mode == $mode && asof == $asof
 //@   loop 2: invariant uploaderOK(u) && $fsops == old($fsops) && (len(ans.readyfiles) > 0 ==> $mode == "on") && ans.uploaded != nil
+// Which counter files are collected: every directory entry whose name ends in
+// ".v1.count" has its span read (whatever else its name looks like: a program may
+// be called local.something), and it is collected exactly if the span could be
+// read and did not end after the run's start time.
+//@   at call counterDateSpan#1: ghost $spanName = arg1
+//@   at call counterDateSpan#1: after ghost $spanOK = result2 == nil
+//@   at call counterDateSpan#1: after ghost $spanExpiry = result1
+//@   at call append#1: ghost $collected = arg1[0]
+//@   at call append#1: assert strings.HasSuffix(fi.Name(), ".v1.count") && arg1[0] == filepath.Join(localdir, fi.Name()) && $spanName == arg1[0] && $spanOK && !$spanExpiry.After(u.startTime)
+//@   at loop 1 end: assert strings.HasSuffix(fi.Name(), ".v1.count") ==> $spanName == filepath.Join(localdir, fi.Name())
+//@   at loop 1 end: assert strings.HasSuffix(fi.Name(), ".v1.count") && $spanOK && !$spanExpiry.After(u.startTime) ==> $collected == filepath.Join(localdir, fi.Name())
 //@   at call append#2: assert mode == "on" && !strings.HasPrefix(fi.Name(), "local.") && strings.HasSuffix(fi.Name(), ".json")
 //@   at call append#2: assert !asof.IsZero() && !reportDate.IsZero() ==> asof.Before(reportDate)
 //@   at call append#3: assert mode == "on" && !strings.HasPrefix(fi.Name(), "local.") && strings.HasSuffix(fi.Name(), ".json")
-//@   modifies u.cache.m, entries(u.cache.m)
+//@   modifies u.cache.m, entries(u.cache.m), $spanName, $spanOK, $spanExpiry, $collected
 
 // reports: with mode off nothing happens at all.
 //@ contract (*uploader).reports
